@@ -91,12 +91,21 @@ pub open spec fn bw_flushed(pre: BufWriter, r: IoResult<()>, post: BufWriter) ->
         })
 }
 
+pub uninterp spec fn default_buf_size() -> nat;
+
 impl BufWriter {
     pub open spec fn len(&self) -> nat { flat(self.chunks@).len() }
 
     #[verifier::external_body]
     pub fn with_capacity(cap: usize, inner: Sock) -> (r: BufWriter)
         ensures r.cap@ == cap, r.chunks@ == Seq::<Seq<u8>>::empty(), r.inner == inner
+    { unimplemented!() }
+
+    /// BufWriter::new: the buffer size is a library default the caller does not choose
+    /// (documented as "currently 8 KiB, but may change")
+    #[verifier::external_body]
+    pub fn new(inner: Sock) -> (r: BufWriter)
+        ensures r.cap@ == default_buf_size(), r.chunks@ == Seq::<Seq<u8>>::empty(), r.inner == inner
     { unimplemented!() }
 
     #[verifier::external_body]
